@@ -394,6 +394,9 @@ func (t *Tokenizer) tokenizeBuffer(buf []byte, last bool) error {
 			off += i
 		case expSign:
 			t.mode = expZeroMap
+			if 0 < len(t.num.BigBuf) {
+				t.num.BigBuf = append(t.num.BigBuf, b)
+			}
 			if b == '-' {
 				t.num.NegExp = true
 			}
